@@ -166,8 +166,58 @@ func craftedLoResidual() string {
 	return encode(m, ts, base, cA, cB, steps)
 }
 
+// craftedMergeOrder: an intersection one userset hop below the target, whose operand reads are sorted merges of the
+// STORED tuples and the CONTEXTUAL tuples of the request (weighted-graph engine, weight-two / recursive strategies):
+// stored and contextual tuples of one user and relation whose object ids INTERLEAVE (stored g1, g3 — contextual g2 and
+// g0, g4) must merge into one sorted stream, or the sorted intersection skips objects.
+func craftedMergeOrder() string {
+	this := func() *fga.Rewrite { return &fga.Rewrite{Kind: "this"} }
+	cu := func(r string) *fga.Rewrite { return &fga.Rewrite{Kind: "cu", Rel: r} }
+	u := fga.Restr{Typ: "user"}
+	m := &fga.Model{Types: []*fga.TypeDef{{Name: "user"},
+		{Name: "group", Rels: []*fga.RelDef{
+			{Name: "allowed", Rewrite: this(), Restrs: []fga.Restr{u}},
+			{Name: "assigned", Rewrite: this(), Restrs: []fga.Restr{u}},
+			{Name: "member", Rewrite: &fga.Rewrite{Kind: "inter", Kids: []*fga.Rewrite{cu("assigned"), cu("allowed")}}},
+			{Name: "outcast", Rewrite: &fga.Rewrite{Kind: "diff", Kids: []*fga.Rewrite{cu("allowed"), cu("assigned")}}}}},
+		{Name: "doc", Rels: []*fga.RelDef{
+			{Name: "viewer", Rewrite: this(), Restrs: []fga.Restr{{Typ: "group", Rel: "member"}}},
+			{Name: "guest", Rewrite: this(), Restrs: []fga.Restr{{Typ: "group", Rel: "outcast"}}}}}}}
+	ts, err := typesystem.NewAndValidate(context.Background(), m.Proto(fgarun.ModelID))
+	if err != nil {
+		panic(err)
+	}
+	var base []fga.Tuple
+	for _, g := range []string{"g0", "g1", "g2", "g3", "g4"} {
+		base = append(base, fga.Tuple{Obj: "group:" + g, Rel: "allowed", User: "user:x"},
+			fga.Tuple{Obj: "doc:" + g, Rel: "viewer", User: "group:" + g + "#member"},
+			fga.Tuple{Obj: "doc:" + g, Rel: "guest", User: "group:" + g + "#outcast"})
+	}
+	base = append(base, fga.Tuple{Obj: "group:g1", Rel: "assigned", User: "user:x"}, fga.Tuple{Obj: "group:g3", Rel: "assigned", User: "user:x"})
+	cA := []fga.Tuple{{Obj: "group:g2", Rel: "assigned", User: "user:x"}}
+	cB := []fga.Tuple{{Obj: "group:g0", Rel: "assigned", User: "user:x"}, {Obj: "group:g4", Rel: "assigned", User: "user:x"}}
+	var steps []step
+	for rep := 0; rep < 3; rep++ { // repeated: the planner samples its strategies
+		for _, sel := range []string{"a", "b", "n"} {
+			for _, g := range []string{"g1", "g2", "g3", "g0", "g4"} {
+				steps = append(steps, step{kind: "chk", sel: sel, reqs: []fga.Req{{Obj: "doc:" + g, Rel: "viewer", User: "user:x"}}})
+				if rep == 0 {
+					steps = append(steps, step{kind: "chk", sel: sel, reqs: []fga.Req{{Obj: "doc:" + g, Rel: "guest", User: "user:x"}}})
+				}
+			}
+		}
+	}
+	return encode(m, ts, base, cA, cB, steps)
+}
+
 func gen(r *hx.Rand, n int, tier string, emit func(string), st *hx.Stats) {
 	for i := 0; i < n; i++ {
+		if i == 4 {
+			emit(craftedMergeOrder())
+			st.Inc("crafted:stored-and-contextual-objects-interleave")
+			st.Inc("histories")
+			continue
+		}
 		if i == 2 {
 			emit(craftedLoResidual())
 			st.Inc("crafted:listobjects-residual-check-on-contextual-tuple")
